@@ -55,11 +55,15 @@ def judge_prog(req, impl, model, spec, focus=None):
         if focus == "names" and single and m.group(2) not in impl:
             oracle = False
             what = "rejected, but no diagnostic names the injected wire %s: %s" % (m.group(2), impl[:200])
-    if verdict == "sched-INVALID":
+    if "loops-BOGUS" in verdict:
+        oracle = False
+        what = ("a dependency loop was reported whose names, or whose printed \"'x' depends on 'y'\" links, are not a cycle of "
+                "the dependency relation of the statements")
+    if verdict.startswith("sched-INVALID"):
         oracle = False
         what = "the schedule produced by the real code is not a valid evaluation order (read before write, double writer, or state change too early)"
-    if verdict:
-        cats.append(verdict)
+    for vd in verdict.split():
+        cats.append(vd)
     t = re.search(r"\(text ([^)]*)\)", req)
     key = t.group(1) if t else req
     return {"corr": corr, "oracle": oracle, "what": what, "key": key, "cats": cats}
